@@ -51,7 +51,13 @@ type c06eCase struct {
 	Ub       uint64 `json:"ub"`
 	Da       uint64 `json:"da"`
 	Db       uint64 `json:"db"`
+	// one-way upload histories: TCP(); Write(payload) in chunks; Close() - the client never calls Read
+	NoRead     bool `json:"no_read"`
+	DialDelay  int  `json:"dial_delay"`  // milliseconds Outbound.TCP takes to connect to the target
+	CloseDelay int  `json:"close_delay"` // milliseconds between the last Write and Close
 }
+
+const c06eProbeAddr = "probe.example:80"
 
 type c06eAuth struct{}
 
@@ -155,9 +161,19 @@ type c06eOutbound struct {
 	dialErr string
 	target  *c06eTarget
 	dials   int
+	delay   time.Duration
 }
 
 func (o *c06eOutbound) TCP(reqAddr string) (net.Conn, error) {
+	if reqAddr == c06eProbeAddr {
+		// liveness probe of the harness: a target that has nothing to say and ends at once
+		t := &c06eTarget{ready: make(chan struct{}), closed: make(chan struct{})}
+		close(t.ready)
+		return t, nil
+	}
+	if o.delay > 0 {
+		time.Sleep(o.delay) // a target that takes a while to connect to
+	}
 	o.mu.Lock()
 	defer o.mu.Unlock()
 	o.dials++
@@ -165,6 +181,12 @@ func (o *c06eOutbound) TCP(reqAddr string) (net.Conn, error) {
 		return nil, errors.New(o.dialErr)
 	}
 	return o.target, nil
+}
+
+func (o *c06eOutbound) dialed() int {
+	o.mu.Lock()
+	defer o.mu.Unlock()
+	return o.dials
 }
 func (o *c06eOutbound) UDP(reqAddr string) (server.UDPConn, error) { return nil, errors.New("no udp") }
 func (o *c06eOutbound) CheckUDP(reqAddr string) error              { return nil }
@@ -204,7 +226,7 @@ func c06eRun(c c06eCase, res map[string]any) {
 	if c.UpN == 0 {
 		target.readyOne.Do(func() { close(target.ready) })
 	}
-	ob := &c06eOutbound{dialErr: c.DialErr, target: target}
+	ob := &c06eOutbound{dialErr: c.DialErr, target: target, delay: time.Duration(c.DialDelay) * time.Millisecond}
 	logger := &c06eLogger{vetoAt: c.VetoAt}
 	cfg := &server.Config{TLSConfig: serverTLSConfig(), Conn: udpConn, Outbound: ob, Authenticator: c06eAuth{}}
 	if c.Logger {
@@ -238,9 +260,17 @@ func c06eRun(c c06eCase, res map[string]any) {
 	select {
 	case r := <-tch:
 		conn, err = r.conn, r.err
-	case <-time.After(20 * time.Second):
+	case <-time.After(20*time.Second + ob.delay):
 		// (no verdict: the property has no liveness clause; level (a) judges what the request phase consumes)
 		skip("TCP()", errors.New("no response within 20 s"))
+		return
+	}
+	if c.NoRead && c.DialErr == "" {
+		if err != nil {
+			skip("TCP()", err)
+			return
+		}
+		c06eNoRead(c, cl, conn, ob, target, logger, up, res, skip, fail)
 		return
 	}
 	if c.DialErr != "" {
@@ -476,6 +506,119 @@ func c06eRun(c c06eCase, res map[string]any) {
 		res["conn_closed"] = closed
 		if !closed {
 			fail("veto-ignored: the logger vetoed but the client's QUIC connection is still usable")
+			return
+		}
+	}
+	res["ok"] = true
+	res["why"] = ""
+}
+
+// c06eNoRead: the one-way upload.  The sender opens the connection, writes its whole payload and closes, without
+// ever calling Read (with fast open the connection is then closed before the client has seen the server's response);
+// the target never ends by itself and the server's connect to it may take a while.  The sender finished writing before
+// either side closed, so the target must receive every byte, and then the end of the stream (the server closes the
+// target connection once the Up direction has read the client's FIN).
+// Judged when the server has closed the target connection: what the target holds must be the whole payload.  If the
+// server has not even connected to the target a few seconds after the Close, a second connection opened on the same
+// client after that is served from request to EOF (so server and QUIC connection are alive and have had time), and
+// the first request has still not been dialled, the request and its payload were dropped: a verdict; anything less
+// conclusive is a skip.
+func c06eNoRead(c c06eCase, cl client.Client, conn net.Conn, ob *c06eOutbound, target *c06eTarget, logger *c06eLogger, up []byte,
+	res map[string]any, skip func(string, error), fail func(string, ...any)) {
+	for off := 0; off < len(up); off += c.UpChunk {
+		end := off + c.UpChunk
+		if end > len(up) {
+			end = len(up)
+		}
+		if n, err := conn.Write(up[off:end]); err != nil || n != end-off {
+			conn.Close()
+			skip("client write", fmt.Errorf("n=%d of %d: %v", n, end-off, err))
+			return
+		}
+	}
+	if c.CloseDelay > 0 {
+		time.Sleep(time.Duration(c.CloseDelay) * time.Millisecond)
+	}
+	cerr := conn.Close()
+	res["close_err"] = fmt.Sprint(cerr)
+	held := func() []byte {
+		target.mu.Lock()
+		defer target.mu.Unlock()
+		return append([]byte(nil), target.got.Bytes()...)
+	}
+	closedWithin := func(d time.Duration) bool {
+		select {
+		case <-target.closed:
+			return true
+		case <-time.After(d):
+			return false
+		}
+	}
+	closed := closedWithin(ob.delay + 3*time.Second)
+	if !closed && ob.dialed() == 0 {
+		// is anybody there?  a fresh connection on the same client, served from request to EOF
+		pch := make(chan error, 1)
+		go func() {
+			pc, err := cl.TCP(c06eProbeAddr)
+			if err != nil {
+				pch <- err
+				return
+			}
+			defer pc.Close()
+			pc.SetReadDeadline(time.Now().Add(8 * time.Second))
+			_, err = pc.Read(make([]byte, 1))
+			if err == io.EOF {
+				err = nil
+			}
+			pch <- err
+		}()
+		var perr error
+		select {
+		case perr = <-pch:
+		case <-time.After(10 * time.Second):
+			perr = errors.New("no answer within 10 s")
+		}
+		if perr != nil {
+			skip("probe after an unserved upload", perr)
+			return
+		}
+		closed = closedWithin(ob.delay + time.Second)
+		if !closed && ob.dialed() == 0 {
+			res["got"] = 0
+			fail("one-way upload (fast open %v): the client wrote %d bytes and closed without reading; the server never connected to the target although a later connection of the same client was served from request to EOF: the request and its payload were dropped", c.FastOpen, len(up))
+			return
+		}
+	}
+	got := held()
+	res["got"] = len(got)
+	res["target_closed"] = closed
+	if len(got) > len(up) || !bytes.Equal(got, up[:len(got)]) {
+		fail("target received %d bytes that are not a prefix of the %d sent (one-way upload, fast open %v)", len(got), len(up), c.FastOpen)
+		return
+	}
+	if !closed {
+		if !closedWithin(10 * time.Second) {
+			skip("one-way upload", fmt.Errorf("target connection still open 13 s after the client closed, holding %d of %d bytes", len(got), len(up)))
+			return
+		}
+		got = held()
+		res["got"] = len(got)
+	}
+	if !bytes.Equal(got, up) {
+		fail("one-way upload (fast open %v): the client wrote %d bytes and closed without reading, the target never having ended; the server closed the target connection after delivering %d bytes: the sender finished writing before either side closed, yet the receiver did not get the whole stream", c.FastOpen, len(up), len(got))
+		return
+	}
+	if c.Logger {
+		logger.mu.Lock()
+		ltx, bad := logger.tx, logger.badArgs
+		logger.mu.Unlock()
+		res["ltx"] = ltx
+		if bad != "" {
+			fail("bad logger arguments: %s", bad)
+			return
+		}
+		if ltx != uint64(len(got)) {
+			fail("logger approved tx=%d, target received %d (one-way upload)", ltx, len(got))
 			return
 		}
 	}
